@@ -101,12 +101,13 @@ class C18:
         self.hop(AOEF_PKG, "load", lambda t: t[1] == ("global", f"{AOEF_PKG}:to_soundevent", "func"), to_se.params, "to_soundevent")
         for fname in ("to_aeof", "to_soundevent"):
             s = ctx.summ.of_func(AOEF_PKG, fname)
-            loops = [l for l in s.loops.values() if l.iter == ("global", f"{AOEF_PKG}:ADAPTERS", "assign")]
-            if len(loops) != 1:
-                ctx.undec("R18.1", f"{s.module.relpath}:{s.node.lineno} {fname}", "ADAPTERS loop not found")
+            from .aoef import adapter_selections
+            sels = adapter_selections(s)
+            if len(sels) != 1:
+                ctx.undec("R18.1", f"{s.module.relpath}:{s.node.lineno} {fname}", "adapter construction from ADAPTERS not found")
                 continue
-            e = ("elem", loops[0].id)
-            self.hop(AOEF_PKG, fname, lambda t, e=e: t[1] == ("sub", e, ("const", 2)), ["audio_dir"], "adapter_cls")
+            fterm = sels[0]["event"].term[1]
+            self.hop(AOEF_PKG, fname, lambda t, fterm=fterm: t[1] == fterm, ["audio_dir"], "adapter_cls")
 
     # -------------------------------------------------------------- R18.1 collection constructors
     def check_constructors(self):
